@@ -47,7 +47,7 @@ class Harness:
         if res.abort:
             kind, info = res.abort
             if kind == "deadlock":
-                where = sorted({f"{n}@{(st[0] if st else b)}" for n, b, st in info})
+                where = sorted({f"{_role(n)}@{_where(b, st)}" for n, b, st in info if n != "Main"})
                 out.append(dict(kind="deadlock", msg=f"deadlock: {info}", fp="deadlock " + " / ".join(where)))
             elif kind == "horizon":
                 out.append(dict(kind="horizon", msg=f"step/time horizon exceeded: {info}", fp="horizon"))
@@ -60,6 +60,20 @@ class Harness:
             out.append(dict(kind="leak", msg=f"threads still alive at the end: {res.leaked}",
                             fp="leak " + ",".join(sorted({n.split('-')[0] for n, _ in res.leaked}))))
         return out
+
+
+def _role(name):
+    import re
+    return re.sub(r"[-_ ]?\d+", "", name.split(" (")[0])
+
+
+def _where(blocked_on, stack):
+    for fr in stack:
+        if not fr.startswith(("c0", "c1", "c2", "obsfam.py", "fsops.py", "pool.py", "process.py", "popen_fork.py",
+                              "context.py", "check:", "runner.py", "explore.py")):
+            return fr
+    b = str(blocked_on)
+    return b.split(",")[0].strip("('") if b else "?"
 
 
 class Stats:
